@@ -10,8 +10,8 @@ From Sdns Require Import Common.Base Gen.C07 C07.Model C07.Proofs_names C07.Proo
 Open Scope N_scope.
 
 Definition deleg_entry_ok (local : list ipaddr) (evs : list deleg_event) (k : name) (d : deleg_entry) : Prop :=
-  exists auth level q m order answers,
-    In (DelegMsg auth level q m order answers) evs /\
+  exists e auth level q m,
+    (In e evs /\ ev_parts e = (auth, level, q, m)) /\
     name_eqb (de_zone d) k = true /\
     (forall r, In r (u_ns m) -> is_ns r -> name_eqb (rr_owner r) (de_zone d) = true /\ rr_class r = q_class q) /\
     is_sub auth (de_zone d) = true /\ (length auth < length (de_zone d))%nat /\
@@ -21,12 +21,12 @@ Definition deleg_entry_ok (local : list ipaddr) (evs : list deleg_event) (k : na
 
 Lemma deleg_entry_ok_mono local evs evs' k d : incl evs evs' -> deleg_entry_ok local evs k d -> deleg_entry_ok local evs' k d.
 Proof.
-  intros Hi [auth [level [q [m [order [answers [Hin H]]]]]]]. exists auth, level, q, m, order, answers. split; [apply Hi, Hin | exact H].
+  intros Hi [e [auth [level [q [m [[Hin Hp] H]]]]]]. exists e, auth, level, q, m. split; [split; [apply Hi, Hin | exact Hp] | exact H].
 Qed.
 
 Lemma deleg_entry_ok_key local evs k k' d : name_eqb k k' = true -> deleg_entry_ok local evs k d -> deleg_entry_ok local evs k' d.
 Proof.
-  intros He [auth [level [q [m [order [answers [Hin [Hz H]]]]]]]]. exists auth, level, q, m, order, answers.
+  intros He [e [auth [level [q [m [Hin [Hz H]]]]]]]. exists e, auth, level, q, m.
   split; [exact Hin|]. split; [eapply name_eqb_trans; eauto | exact H].
 Qed.
 
@@ -121,12 +121,13 @@ Definition result_ok (local : list ipaddr) (evs : list deleg_event) (r : deleg_r
 Lemma result_ok_empty local evs o : result_ok local evs (mk_dr o [] None).
 Proof. split; cbn; [intros b d [] | discriminate]. Qed.
 
-Lemma deleg_apply_ok local evs st e :
-  In e evs -> state_ok local evs st ->
-  state_ok local evs (fst (deleg_apply local st e)) /\ result_ok local evs (snd (deleg_apply local st e)).
+Lemma deleg_core_ok local evs st e minimized auth level q origin m order answers :
+  In e evs -> ev_parts e = (auth, level, q, m) -> state_ok local evs st ->
+  state_ok local evs (fst (deleg_core local st minimized auth level q origin m order answers)) /\
+  result_ok local evs (snd (deleg_core local st minimized auth level q origin m order answers)).
 Proof.
-  intros He Hst. destruct st as [gc dc]. destruct Hst as [Hg Hd]. cbn [fst snd] in Hg, Hd.
-  destruct e as [auth level q m order answers]. unfold deleg_apply.
+  intros He Hparts Hst. destruct st as [gc dc]. destruct Hst as [Hg Hd]. cbn [fst snd] in Hg, Hd.
+  unfold deleg_core.
   destruct (di_hosts (extract_info (u_ns m))) as [|h0 hrest] eqn:Eh.
   { split; [split; assumption | apply result_ok_empty]. }
   rewrite <- Eh.
@@ -137,8 +138,8 @@ Proof.
   destruct (Nat.ltb (length owner) level); [split; [split; assumption | apply result_ok_empty]|].
   destruct (deleg_get owner dc); [split; [split; assumption | apply result_ok_empty]|].
   set (hosts := di_hosts (extract_info (u_ns m))) in *.
-  pose proof (check_glue_sound false local level (q_name q) hosts (u_extra m)) as [Gs [_ [_ [G4 _]]]].
-  set (g := check_glue false local level (q_name q) hosts (u_extra m)) in *.
+  pose proof (check_glue_sound false local level origin hosts (u_extra m)) as [Gs [_ [_ [G4 _]]]].
+  set (g := check_glue false local level origin hosts (u_extra m)) in *.
   assert (Hg1 : gc_ok local (fold_left (fun c p => glue_put (fst p) (snd p) c) (gr_addrs4 g) gc)).
   { revert Hg. generalize gc. induction (gr_addrs4 g) as [|p ps IH]; intros c Hc; cbn [fold_left]; [exact Hc|].
     inversion G4 as [|? ? [_ Hp] Hps]; subst. apply IH; [exact Hps|]. apply gc_ok_put; assumption. }
@@ -152,8 +153,8 @@ Proof.
   (* what a set published for this referral satisfies *)
   assert (Hentry : forall d, de_zone d = owner -> (forall h, In h (de_hosts d) -> In h hosts) -> Forall (addr_ok local) (de_servers d) ->
                      deleg_entry_ok local evs (de_zone d) d).
-  { intros d Hz Hdh Hds. exists auth, level, q, m, order, answers. rewrite Hz.
-    split; [exact He|]. split; [apply name_eqb_refl|]. split; [exact Hns|]. split; [exact Hsub|]. split; [exact Hlen|].
+  { intros d Hz Hdh Hds. exists e, auth, level, q, m. rewrite Hz.
+    split; [split; [exact He | exact Hparts]|]. split; [apply name_eqb_refl|]. split; [exact Hns|]. split; [exact Hsub|]. split; [exact Hlen|].
     split; [exact Hpath|]. split; [|exact Hds].
     intros h Hh. destruct (Hhosts h (Hdh h Hh)) as [r [t [Hin [Hisns [Hrd [-> _]]]]]]. exists r, t. auto. }
   assert (Hsnaps : forall b d, In (b, d) snaps -> deleg_entry_ok local evs (de_zone d) d).
@@ -165,6 +166,18 @@ Proof.
     split; [split; cbn [fst snd]; [exact Hg2|] | split; cbn; [exact Hsnaps | intros d H; injection H as <-; exact Hnew]].
     intros k d Hin. apply deleg_put_entries in Hin. destruct Hin as [Hin|[-> Hk]]; [exact (Hd _ _ Hin)|].
     eapply deleg_entry_ok_key; [|exact Hnew]. exact Hk.
+Qed.
+
+Lemma deleg_apply_ok local evs st e :
+  In e evs -> state_ok local evs st ->
+  state_ok local evs (fst (deleg_apply local st e)) /\ result_ok local evs (snd (deleg_apply local st e)).
+Proof.
+  intros He Hst. destruct e as [auth level q m order answers|auth level q m order answers]; unfold deleg_apply.
+  - eapply deleg_core_ok; [exact He | reflexivity | exact Hst].
+  - destruct (dispose_min m).
+    + split; [exact Hst | apply result_ok_empty].
+    + split; [exact Hst | apply result_ok_empty].
+    + eapply deleg_core_ok; [exact He | reflexivity | exact Hst].
 Qed.
 
 (* ------------------------------------------------------------ histories *)
@@ -206,11 +219,11 @@ Qed.
    above it sent an NS set owned by it while a name below it was being resolved *)
 Lemma deleg_only_below_sender local evs st results k d :
   deleg_history local ([], []) evs = (st, results) -> In (k, d) (snd st) ->
-  exists auth level q m order answers, In (DelegMsg auth level q m order answers) evs /\
+  exists e auth level q m, In e evs /\ ev_parts e = (auth, level, q, m) /\
     is_sub auth k = true /\ (length auth < length k)%nat /\ is_sub k (q_name q) = true.
 Proof.
-  intros H Hin. destruct (proj1 (deleg_history_sound _ _ _ _ H) k d Hin) as [auth [level [q [m [order [answers [He [Hz [_ [Hs [Hl [Hp _]]]]]]]]]]]].
-  exists auth, level, q, m, order, answers. split; [exact He|].
+  intros H Hin. destruct (proj1 (deleg_history_sound _ _ _ _ H) k d Hin) as [e [auth [level [q [m [[He Hpa] [Hz [_ [Hs [Hl [Hp _]]]]]]]]]]].
+  exists e, auth, level, q, m. split; [exact He|]. split; [exact Hpa|].
   rewrite <- (is_sub_respects_eq_r auth _ _ Hz), <- (is_sub_respects_eq_l _ _ (q_name q) Hz).
   apply name_eqb_spec in Hz. assert (length (de_zone d) = length k) by (rewrite <- (canon_length (de_zone d)), Hz, canon_length; reflexivity).
   repeat split; [exact Hs | lia | exact Hp].
@@ -260,7 +273,7 @@ Proof.
   destruct (deleg_get_in _ _ _ G) as [m [Hin Hm]].
   pose proof (proj1 (deleg_history_sound _ _ _ _ H) m e' Hin) as Hok.
   assert (Hzone : name_eqb (de_zone e') z' = true).
-  { destruct Hok as [? [? [? [? [? [? [_ [Hk _]]]]]]]]. rewrite name_eqb_sym in Hm. eapply name_eqb_trans; eauto. }
+  { destruct Hok as [? [? [? [? [? [_ [Hk _]]]]]]]. rewrite name_eqb_sym in Hm. eapply name_eqb_trans; eauto. }
   set (start := if ds then removelast qname else qname) in *.
   assert (Hstart : exists s, start = firstn s qname /\ (s <= length qname)%nat /\ (ds = true -> (s < length qname)%nat \/ qname = [])).
   { destruct ds; subst start.
